@@ -10,7 +10,7 @@ import time
 
 VERIF = os.path.dirname(os.path.dirname(os.path.abspath(__file__)))
 REPO = os.environ.get('VF_REPO', '/repo')
-CACHE = os.path.join(VERIF, '.cache')
+CACHE = os.environ.get('VF_CACHE') or os.path.join(VERIF, '.cache')
 DRIVER_DIR = os.path.join(VERIF, 'engines', 'gqlfacts')
 DRIVER = os.path.join(DRIVER_DIR, 'target', 'release', 'gqlfacts')
 
